@@ -296,22 +296,25 @@ def handleAsdu (e : Env) (s : Srv) (conn now : Nat) (r : Req) : Option (Srv × L
       else if r.tid = 122 then onCallSel e s conn now r
       else (s, [])
 
-/-- `sendSegment` + `sendLastSegment` in `CS101_FileServer_runTask` (file_server.c:203-267, 871-903) -/
+/-- `sendSegment` / `sendLastSegment` (file_server.c:203-267): the part of `runTask` that transmits -/
+def pumpStep (e : Env) (s : Srv) (conn now : Nat) : Srv × List Out :=
+  if s.st = .transmit ∧ s.selConn = some conn ∧ s.selected then
+    let n := s.secSize - s.secOff
+    if n > 0 then
+      let n := if n > s.maxSeg then s.maxSeg else n
+      let d := segData e.file ((s.secNo : Int) - 1) s.secOff n
+      ({ s with secOff := s.secOff + n, lastSend := now, secChk := (s.secChk + chk d) % 256 },
+        [s.send conn s.oa (.segment s.secNo d)])
+    else
+      ({ s with lastSend := now, st := .waitSectionAck }, [s.send conn s.oa (.lastSegment s.secNo s.secChk)])
+  else (s, [])
+
+/-- `CS101_FileServer_runTask` (file_server.c:871-903): pump, then the supervision time -/
 def runTask (e : Env) (s : Srv) (conn now : Nat) : Srv × List Out :=
   if s.st = .idle then (s, [])
   else
-    let (s, out) :=
-      if s.st = .transmit ∧ s.selConn = some conn ∧ s.selected then
-        let n := s.secSize - s.secOff
-        if n > 0 then
-          let n := if n > s.maxSeg then s.maxSeg else n
-          let d := segData e.file ((s.secNo : Int) - 1) s.secOff n
-          ({ s with secOff := s.secOff + n, lastSend := now, secChk := (s.secChk + chk d) % 256 },
-            [s.send conn s.oa (.segment s.secNo d)])
-        else
-          ({ s with lastSend := now, st := .waitSectionAck }, [s.send conn s.oa (.lastSegment s.secNo s.secChk)])
-      else (s, [])
-    (if now > s.lastSend + s.timeout then { s with st := .idle } else s, out)
+    let p := pumpStep e s conn now
+    (if now > p.1.lastSend + p.1.timeout then { p.1 with st := .idle } else p.1, p.2)
 
 inductive Op where
   | asdu (conn now : Nat) (r : Req)
